@@ -64,6 +64,9 @@ def run_family(binary, work, items, jobs=None, batch=6, meaning_needed=True, log
     uniq = {}
     mcases = []
     for it in items:
+        if it.get('want') is not None or it.get('nomeaning') or len(it['wf']['steps']) > 6:
+            it['_m'] = None
+            continue
         key = json.dumps([strip_wf(it['wf']), it['oc']], sort_keys=True)
         if key not in uniq:
             uniq[key] = len(mcases)
@@ -71,7 +74,7 @@ def run_family(binary, work, items, jobs=None, batch=6, meaning_needed=True, log
         it['_m'] = uniq[key]
     mres = None
     if meaning_needed and mcases:
-        ok, mres, mst, mout = meaning(mcases, work, workers=min(8, NCPU))
+        ok, mres, mst, mout = meaning(mcases, work, workers=min(8, NCPU), timeout_s=300)
         stats['meaning_states'] = mst.get('distinct', 0)
         stats['meaning_generated'] = mst.get('generated', 0)
         stats['meaning_cases'] = len(mcases)
@@ -116,8 +119,12 @@ def run_family(binary, work, items, jobs=None, batch=6, meaning_needed=True, log
             owner.append(i)
             allcases.append(c)
         # result vs meaning
-        if mres is not None and not res.get('watchdog') and res.get('runs'):
+        want = None
+        if it.get('want') is not None:
+            want = set(it['want'])
+        elif mres is not None and it.get('_m') is not None:
             want = mres[it['_m']]['results']
+        if want is not None and not res.get('watchdog') and res.get('runs'):
             got = engine_outcome(res['runs'][0])
             it['_want'] = sorted(want)
             it['_got'] = got
